@@ -24,6 +24,8 @@ type clockCase struct {
 	ClockMS    int64 `json:"clock_ms"` // both sides; 0 = flag fallen
 	HoldMS     int   `json:"hold_ms"`  // how long depth 1 is held at the gate
 	ViaEngine  bool  `json:"via_engine"`
+	// Limit > 0: a depth limit is set as well (far beyond what the clock allows): the clock still rules
+	Limit int `json:"depth_limit,omitempty"`
 }
 
 var checkC15Clock = def("C15/clock", func(c clockCase) error {
@@ -39,6 +41,9 @@ var checkC15Clock = def("C15/clock", func(c clockCase) error {
 	inner, _ := cfg.make(c.Param)
 	gs := newGatedSearch(inner, 1)
 	opt := searchctl.Options{TimeControl: lang.Some(searchctl.TimeControl{White: time.Duration(c.ClockMS) * time.Millisecond, Black: time.Duration(c.ClockMS) * time.Millisecond})}
+	if c.Limit > 0 {
+		opt.DepthLimit = lang.Some(uint(c.Limit))
+	}
 	var out <-chan search.PV
 	var halt func() search.PV
 	if c.ViaEngine {
@@ -60,7 +65,7 @@ var checkC15Clock = def("C15/clock", func(c clockCase) error {
 		h, o := (&searchctl.Iterative{Root: gs}).Launch(ctx, b.Fork(), search.NoTranspositionTable{}, eval.Random{}, opt)
 		out, halt = o, h.Halt
 	}
-	where := fmt.Sprintf("%s at %s with %d ms on both clocks, depth 1 held for %d ms", c.Config, g.Cur().FEN(), c.ClockMS, c.HoldMS)
+	where := fmt.Sprintf("%s at %s with %d ms on both clocks (depth limit %d), depth 1 held for %d ms", c.Config, g.Cur().FEN(), c.ClockMS, c.Limit, c.HoldMS)
 	var first gateEvent
 	select {
 	case first = <-gs.entering:
@@ -130,14 +135,18 @@ loop:
 	if c.ViaEngine {
 		labels = append(labels, "via-engine")
 	}
-	stats.Case("C15/clock", stats.FP(c.FEN, fmt.Sprint(c.Moves), c.Config, c.Param, c.ClockMS, c.HoldMS, c.ViaEngine), expired, labels...)
+	if c.Limit > 0 {
+		labels = append(labels, "depth-limit-and-clock")
+	}
+	stats.Case("C15/clock", stats.FP(c.FEN, fmt.Sprint(c.Moves), c.Config, c.Param, c.ClockMS, c.HoldMS, c.ViaEngine, c.Limit), expired || c.Limit > 0, labels...)
 	return nil
 })
 
 func TestC15_clock(t *testing.T) {
 	runRapid(t, "C15/clock", 1200, func(t *rapid.T) clockCase {
 		return clockCase{searchCase: genSearchCase(t, abConfigs), ClockMS: int64(rapid.SampledFrom([]int{0, 0, 1, 20, 80, 400}).Draw(t, "clock")),
-			HoldMS: rapid.SampledFrom([]int{0, 3, 25}).Draw(t, "hold"), ViaEngine: rapid.Bool().Draw(t, "viaengine")}
+			HoldMS: rapid.SampledFrom([]int{0, 3, 25}).Draw(t, "hold"), ViaEngine: rapid.Bool().Draw(t, "viaengine"),
+			Limit: rapid.SampledFrom([]int{0, 0, 30, 60}).Draw(t, "limit")}
 	}, func(c clockCase) error {
 		stats.Sample("C15/clock", c)
 		return checkC15Clock(c)
